@@ -35,6 +35,10 @@ fn check_prim<C: TestColor>(case: &Styled2, obs: &mut Obs) {
         if a.map != c.map {
             obs.fail("draw==pixels", format!("a=draw(), b=pixels(): {}", map_diff(&a.map, &c.map)));
         }
+        // every way of consuming pixels() delivers what next() delivers (small shapes, thin strokes)
+        if sty.w <= 1 && c.map.len() <= 40 {
+            iter_protocol("pixels()", 200, || s.pixels(), obs);
+        }
         // the same drawable through the other public entry points: Styled::new and StyledDrawable::draw_styled
         let s2 = embedded_graphics::primitives::Styled::new(s.primitive.clone(), s.style);
         let mut d = RecD::<C>::new();
@@ -171,9 +175,10 @@ fn bounded_shapes(at: (i32, i32), tier: Tier) -> Vec<(Shape, (u32, u32))> {
         (Shape::Line { a: at, b: (at.0 + 5, at.1 + 3) }, (6, 4)),
         (Shape::Sector { x: at.0, y: at.1, d: 6, start: 40, sweep: 800 }, (6, 6)),
     ];
+    // a polyline whose vertices lie far from where translate() puts it
+    shapes.push((Shape::Polyline { pts: vec![(at.0 + 100, at.1 - 70), (at.0 + 104, at.1 - 69), (at.0 + 100, at.1 - 67)], tx: -100, ty: 70 }, (5, 4)));
     if tier.is_thorough() {
         shapes.push((Shape::Arc { x: at.0, y: at.1, d: 7, start: 40, sweep: 800 }, (7, 7)));
-        shapes.push((Shape::Polyline { pts: vec![at, (at.0 + 4, at.1 + 1), (at.0, at.1 + 3)], tx: 1, ty: 0 }, (6, 4)));
     }
     shapes
 }
@@ -299,7 +304,7 @@ fn run_part(run: &mut Run) {
             let fonts: Vec<usize> = if t { (0..FONTS.len()).step_by(7).collect() } else { vec![font_index("ascii::FONT_4X6"), font_index("iso_8859_1::FONT_6X10"), font_index("jis_x0201::FONT_10X20")] };
             run.sweep_vec("text-rgb565", "fonts x 11 strings x 16 colour/decoration combinations x 4 baselines x 3 alignments x line heights",
                 || text_catalogue(&fonts, &CATALOGUE_STRINGS, &[(1, 100), (0, 7)], (-3, 5)), check_text::<Rgb565>);
-            run.sweep_vec("bounded-target", "images (7 widths, 4 sizes, sub-images), text and seven primitive kinds x S(2) hanging over every edge and corner of three small target boxes (at the origin, across the y axis, and a window further from the origin than its own size), and the same kinds x stroke widths 2..=4 (lines to 5) placed just outside each side so that only the stroke reaches into the box: both target flavours compared inside the target's box", || bounded_cases(tier), check_bounded);
+            run.sweep_vec("bounded-target", "images (7 widths, 4 sizes, sub-images), text and eight primitive kinds (the polyline moved into place by translate()) x S(2) hanging over every edge and corner of three small target boxes (at the origin, across the y axis, and a window further from the origin than its own size), and the same kinds x stroke widths 2..=4 (lines to 5) placed just outside each side so that only the stroke reaches into the box: both target flavours compared inside the target's box", || bounded_cases(tier), check_bounded);
             run.sweep_vec("text-custom-fonts", "three synthetic fonts with character spacing 1, 2, 3 x 7 strings x 16 colour/decoration sets x 4 baselines x 3 alignments", || text_catalogue_named(&CUSTOM_FONTS, &CUSTOM_STRINGS, &[(1, 100)], (-3, 5)), check_text::<Rgb565>);
             run.sweep_vec("text-binary", "one font x strings x decorations in BinaryColor",
                 || text_catalogue(&[font_index("ascii::FONT_6X9")], &CATALOGUE_STRINGS, &[(1, 100)], (2, 2)), check_text::<BinaryColor>);
